@@ -287,7 +287,7 @@ fn shape_representation(shape: &JsonShape) -> String {
         JsonShape::Array { r#type, optional } => {
             let sub_shape = shape_representation(r#type);
             if *optional {
-                format!("Optional<Vec<{sub_shape}>>")
+                format!("Option<Vec<{sub_shape}>>")
             } else {
                 format!("Vec<{sub_shape}>")
             }
